@@ -198,6 +198,15 @@ def run_impl(case):
                     csv_back[f"{q}|{n}"] = f"{type(e).__name__}: {e}"[:120]
         out["csv_back"] = csv_back
         out["unchanged"] = _snapshot(mfa) == before
+        # the tables handed out are a record of the system at the time of the export: the owner goes on working on the system in place
+        # (a next scenario), and the tables exported before still hold what was exported
+        frozen = {(kind, n): df.copy(deep=True) for kind in ("flows", "stocks") for n, df in d_pd[kind].items()}
+        for f in mfa.flows.values():
+            f.values[...] = f.values * 2 + 1
+        for st_ in mfa.stocks.values():
+            for q in (st_.stock, st_.inflow, st_.outflow):
+                q.values[...] = q.values * 2 + 1
+        out["export_follows_system"] = [f"{kind} {n}" for (kind, n), df0 in frozen.items() if not df0.equals(d_pd[kind][n])]
     except Exception as e:  # noqa
         return dict(kind="err", exc=type(e).__name__, msg=str(e)[:200])
     finally:
@@ -279,6 +288,8 @@ def oracle(case, obs):
     want_s = sorted(f"{slug_ref(st['name'])}_{q}.csv" for st in s["stocks"] for q in (["stock", "inflow", "outflow"] if case["with_in_out"] else ["stock"]))
     if o["flow_files"] != want_f or o["stock_files"] != want_s:
         return f"files written {o['flow_files']} / {o['stock_files']}, expected one per flow / stock quantity {want_f} / {want_s}"
+    if o.get("export_follows_system"):
+        return f"the pandas tables exported earlier changed when the system was worked on afterwards: {o['export_follows_system'][:2]}"
     if not o["unchanged"]:
         return "exporting altered the system"
     return None
